@@ -79,7 +79,7 @@ func runFam(c *vf.Check, f famSpec) {
 			}
 			ev := obj(cases[i].Ideal[0])
 			if str(ev["panic"]) == "" {
-				ev["effs"] = append(arr(ev["effs"]), []any{"ret", cases[i].RetA, 42, 7, 3, 1})
+				ev["effs"] = append(arr(ev["effs"]), []any{"ret", cases[i].RetA, 42, 7, 3, 1, 5})
 			}
 		}
 	}
